@@ -138,7 +138,7 @@ pub fn run(ctx: &Ctx) -> CheckResult {
             spaces.push(Space { cfg: Cfg::pm(Kind::Kc, n, m), alphabet: int.clone(), depth: d - 2, label: "S_int+reset" });
             spaces.push(Space { cfg: Cfg::pm(Kind::Kc, n, m), alphabet: rough.clone(), depth: dr - 2, label: "S_rough" });
             spaces.push(Space { cfg: Cfg::pm(Kind::Kc, n, m), alphabet: grid.clone(), depth: db - 1, label: "B_grid+reset" });
-            spaces.push(Space { cfg: Cfg::pm(Kind::Ce, n, m), alphabet: grid.clone(), depth: db - 1, label: "B_grid+reset" });
+            spaces.push(Space { cfg: Cfg::pm(Kind::Ce, n, m), alphabet: grid.clone(), depth: if m == 2.0 { db + 1 } else { db }, label: "B_grid+reset" });
         }
     }
     spaces.push(Space { cfg: Cfg::p0(Kind::Tr), alphabet: int.clone(), depth: d, label: "S_int+reset" });
